@@ -9,7 +9,9 @@ BINS = {"release": ["clihist", "clifault"], "debug": ["clihist", "clifault"]}
 DEBUG_IN_QUICK = True
 RULE = ("random client histories with a transport fault (receive error, send error) or an offending server frame (garbage, empty "
         "array, response matching nothing pending, ids at the u64 boundary, non-numeric ids in arrays) injected at a random step, on "
-        "the release AND the debug build (arithmetic overflow panics); a zoo of extreme frames; plus the shutdown-protocol engine "
+        "the release AND the debug build (arithmetic overflow panics); a zoo of extreme frames; a write error on every kind of frame the client writes (call, "
+        "notification, batch, subscribe, unsubscribe from unsubscribe()/drop/lagging stream/abandoned subscribe) with other work pending and a "
+        "silent receive side; plus the shutdown-protocol engine "
         "clifault (slow transport close, calls issued inside the shutdown window).  Oracle on the implementation alone: no panic, "
         "every pending and every later call/batch/subscribe completes with the disconnect cause (never a placeholder, never "
         "ServiceDisconnect/timeout), on_disconnect reports a classified cause")
@@ -43,6 +45,7 @@ def zoo_histories(ctx):
 def run(ctx):
     ctx.engines = ["clihist (release + debug)", "clifault"]
     hs = zoo_histories(ctx)
+    hs += C.c09_sendfault_histories(ctx.rng)
     hs += random_histories(ctx, ctx.scale(1200, 25000), misbehave_p=0.8, cleanup=False)
     C.run_histories(ctx, hs, ["c09"])
     # debug build: overflow checks on
